@@ -672,6 +672,53 @@ def run(ck):
     r4_rollback_line(ck)
     r5_context_stays_intact(ck)
     r7_every_hunk_is_visited(ck)
+    r8_who_writes_the_file_state(ck)
+
+
+def r8_who_writes_the_file_state(ck, rule="C04-R8"):
+    """What an undo puts back is what the application recorded before it changed it (R1) - so the state of a file (content, deleted,
+    permissions) may only change where that record is kept: inside FilePatch::apply_internal and what it calls, and in ModifiedFile's
+    own move_in / move_out (the rename, undone by ModifiedFiles::rollback).  A store from anywhere else (the driver flipping `deleted`
+    before calling apply, a "fix-up" after it) is invisible to the undo: rolling the patch back does not restore it."""
+    prog, cg = ck.prog, ck.cg
+    MF = "libpatch::modified_file::ModifiedFile"
+    ai = ck.anchor("FilePatch::<'a, &'a [u8]>::apply_internal")
+    if ai is None:
+        return
+    family = cg.closure([ai.id])
+    STATE = ("content", "deleted", "permissions")
+    n = 0
+    for fn in sorted(prog.fns.values(), key=lambda f: f.id):
+        wrote = {}
+        for bb, idx, st in fn.stmts():
+            if st["k"] != "assign" or fn.blocks[bb]["cleanup"]:
+                continue
+            pls = [st["lhs"]] if "p" in st["lhs"] else []
+            if st["rv"]["k"] in ("ref", "rawptr") and st["rv"].get("mut"):
+                pls.append(st["rv"]["pl"])
+            for pl in pls:
+                for pr in pl.get("p", []):
+                    if isinstance(pr, dict) and pr.get("adt") == MF and pr.get("name") in STATE:
+                        wrote.setdefault(pr["name"], st)
+        if not wrote:
+            continue
+        n += 1
+        own = fn.id.startswith(MF + "::<") or fn.id.startswith(MF + "::") or ("<" + MF) in fn.id.split(" as ")[0]
+        if fn.id in family:
+            ck.ok(rule, "%s writes %s" % (fn.id.split("::")[-1], sorted(wrote)), "inside the application that records what it changes", fn.where())
+        elif own and fn.id.split("::")[-1] in ("move_in", "move_out"):
+            ck.ok(rule, "%s writes %s" % (fn.id.split("::")[-1], sorted(wrote)), "the rename primitive, undone by ModifiedFiles::rollback", fn.where())
+        elif own:
+            callers = [c for c in cg.callers(fn.id) if c not in family and not (c.startswith(MF) or ("<" + MF) in c.split(" as ")[0])]
+            ck.require(not callers, rule, "%s writes %s" % (fn.id.split("::")[-1], sorted(wrote)),
+                       "%s changes the state of a file (%s) and is called from %s, outside the application that records what it changes: an undo "
+                       "does not put it back" % (fn.id, sorted(wrote), callers), fn.where(), ok_detail="only called from the application")
+        else:
+            st = list(wrote.values())[0]
+            ck.violate(rule, "%s writes %s" % (fn.id.split("::")[-1], sorted(wrote)),
+                       "%s stores into ModifiedFile.%s outside FilePatch::apply_internal (which records the previous value for the undo) and "
+                       "outside move_in / move_out: rolling the patch back does not restore it" % (fn.id, " / ".join(sorted(wrote))), fn.where(st))
+    ck.floor(rule, "functions writing the state of a file", n, 5)
 
 
 def r7_every_hunk_is_visited(ck, rule="C04-R7"):
